@@ -80,7 +80,7 @@ CHECKS = {
              "exercised: every generated tree (all property kinds, all origin kinds incl. No* singletons, shared subtrees, ids with collision suffixes) is "
              "round-tripped in dict/JSON/MessagePack/YAML with originals all alive / none / random subtrees / in a fresh process and compared position by "
              "position (identity or class, id, content_id, props, origin; sharing; == original).",
-        note="Trusted: third-party codecs decode what they encode (exercised); property-value codec not modelled; index-based source serialization not yet exercised; "
+        note="Trusted: third-party codecs decode what they encode (exercised); property-value codec not modelled; index-based source serialization exercised in-process and across processes (sources loaded first); "
              "registry half tied by the C03 correspondence (as_obj histories).",
         design="5/C04"),
     "C09": dict(
@@ -106,6 +106,14 @@ CHECKS = {
              "rendered from random (depth<=3) and exhaustive (depth<=2) Ty terms in 4 spellings and inheritance chains; verdict + get_child_fields/get_property_fields membership.",
         note="Trusted: typing-module introspection (get_type_hints/get_origin/get_args), mashumaro's own refusals excluded from generation; model tied by correspondence.",
         design="5/C11"),
+    "C12": dict(
+        technique="Lean 4 proof: dataclass field-order resolution + the generated accessor bodies (sorted/unsorted branches, skip chain) + static get_property_fields = filter-by-flags ∘ declaration/name order, for every class hierarchy, instance and flag vector + differential correspondence on generated hierarchies in every first-use order",
+        text="Theorems (35): fields = declaration order of the hierarchy with overrides in their slot; every child/property accessor = spec (values, fields, indices from 0, absent "
+             "optionals omitted, a user property yielded unless non-comparable & skip_non_compare or non-init & skip_non_init, id/content_id/origin by their own flags); static and instance variants "
+             "agree; sorted variant = name order; results independent of child truthiness and of which class of a hierarchy was used first (per-class installation). Correspondence: generated "
+             "hierarchies (1-3 levels, overrides, init=False, compare=False, kw_only), every order of first use, all 2^5 x 2 flag combinations, empty tuples / absent optionals / falsy children.",
+        note="Trusted: dataclasses.fields() order semantics, exec of generated source; model tied by correspondence. Gap: 'sorted child enumeration = stable sort of the unsorted edge list' proved as name-order flat-map + permutation only.",
+        design="5/C12"),
     "C13": dict(
         technique="Lean 4 proof: model of is_instance in code order = conformance relation of the statement, invalid_fields = filter of non-conforming fields + differential correspondence on an (annotation, value) matrix and node constructions with the switch on/off",
         text="Theorems (all values, all accepted annotations outside listed don't-cares): isInstance = conforms (bool not int, int for float, None only where allowed, tuples element-wise / exact length, "
